@@ -1,7 +1,7 @@
 """C13 child process: runs the REAL schemathesis engine one or more times in THIS process against a server owned by the parent.
 
 usage: python -m harness.c13_child <job.json>
-job = {"schema": {"kind": "dict", "raw": {...}} | {"kind": "path", "path": "..."}, "base_url": "...",
+job = {"schema": {"kind": "dict", "raw": {...}} | {"kind": "path", "path": "..."}, "base_url": "...",     (a run may carry its own "schema")
        "runs": [{"tag": "A", "seed": 1, "workers": 1, "phases": ["coverage"], "modes": ["positive"], "max_examples": 8, "steps": 6}]}
 Before / after every run and at every PhaseStarted / PhaseFinished event a marker request is sent to the server, so that the parent can
 cut the server log (the ground truth) into runs and phases.  Prints one JSON object: {"runs": [{"tag", "failures": [...], "events": n}]}.
@@ -201,12 +201,14 @@ def main(argv: list[str]) -> int:
     out = []
     for run in job["runs"]:
         # the schema is loaded anew for every run, as a new CLI invocation / test session would; module-level caches stay warm
-        if job["schema"]["kind"] == "path":
-            schema = schemathesis.openapi.from_path(job["schema"]["path"])
+        # a run may name its own schema (process history: ANOTHER schema is tested earlier in this process, spec/ReproHistory.tla)
+        source = run.get("schema") or job["schema"]
+        if source["kind"] == "path":
+            schema = schemathesis.openapi.from_path(source["path"])
         else:
-            schema = schemathesis.openapi.from_dict(job["schema"]["raw"])
+            schema = schemathesis.openapi.from_dict(source["raw"])
         if run.get("front") == "cli":
-            out.append(run_cli(job["schema"]["path"], job["base_url"], run))
+            out.append(run_cli(source["path"], job["base_url"], run))
             continue
         schema.configure(base_url=job["base_url"])
         out.append(run_engine(schema, job["base_url"], run))
